@@ -11,8 +11,10 @@ RUN_IMPORT = "Reactive.ActionRun"
 READY = True
 
 RULE = ("cases drawn from one PRNG (VERIF_SEED): a history of dispatch / abort / drop-handle / complete(k, r) / "
-        "poll(k) / clear / run-until-idle(pick order) events over one ArcAction, Action, local ArcAction or local "
-        "Action (variant 0..3) or one ArcMultiAction (dispatch / dispatch_sync / cancel / complete / poll / run). "
+        "poll(k) / clear / run-until-idle(pick order) events over one ArcAction, Action, local ArcAction, local "
+        "Action, leptos_server ArcServerAction or ServerAction over a mock ServerFn (variant 0..5; the server wrappers are "
+        "dispatched through their own methods; negative results are Err(ServerError)) or one ArcMultiAction / "
+        "ArcServerMultiAction / ServerMultiAction (dispatch / dispatch_sync / cancel / complete / poll / run). "
         "Futures are oneshot receivers completed by the history; tasks are polled only when the history says so, in "
         "the order it says. Shapes: free mixes, abort-vs-completion races (abort and completion both delivered "
         "before the task's next poll, in both orders, with and without an earlier poll), overlapping dispatches "
@@ -27,7 +29,9 @@ TRUSTED = [
     "modelled, not verified: futures::select_biased! (first ready branch in textual order; a oneshot receiver whose sender was "
     "dropped without a message is 'terminated' and its branch is skipped), futures::channel::oneshot wake-ups, the "
     "signal primitives ArcRwSignal::update / ArcStoredValue::get_value (plain cells here)",
-    "leptos_server/src/{action,multi_action}.rs are thin wrappers (Deref to the reactive_graph types) and are covered by reading only",
+    "leptos_server/src/{action,multi_action}.rs: ArcServerAction / ServerAction / ArcServerMultiAction / ServerMultiAction are "
+    "driven through their own methods over a mock server function (harness/rx2/src/srvfn.rs: custom Protocol and Client, "
+    "BrowserMockServer); the restore-from-URL path (ServerActionError context) is not exercised",
 ]
 ASSUMPTIONS = [
     "single-threaded executor, atomic polls (the cross-thread windows belong to C19)",
@@ -80,7 +84,7 @@ def gen_race(rng):
     if rng.random() < 0.6:
         evs.append([5, []]) if rng.random() < 0.5 else evs.append([3, rng.randint(0, nd - 1), 0])
     k = rng.randint(0, nd - 1)
-    a, c = [1, k], [2, k, rng.randint(1, 99)]
+    a, c = [1, k], [2, k, rng.choice([rng.randint(1, 99), -rng.randint(2, 99)])]
     evs += [a, c] if rng.random() < 0.5 else [c, a]
     if rng.random() < 0.3:
         evs.append([4])
@@ -99,7 +103,7 @@ def gen_overlap(rng):
     rng.shuffle(order)
     mid = []
     for k in order:
-        mid.append([2, k, 10 * (k + 1)])
+        mid.append([2, k, rng.choice([10 * (k + 1), -10 * (k + 1)])])
     polls = list(range(nd))
     rng.shuffle(polls)
     for k in polls:
@@ -116,14 +120,14 @@ def generate(rng, tier):
     for _ in range(n):
         r = rng.random()
         if r < 0.45:
-            v = rng.randint(0, 3)
+            v = rng.randint(0, 5)
             yield dict(case=[0, v, gen_events(rng)], kind="single-free")
         elif r < 0.65:
-            yield dict(case=[0, rng.randint(0, 3), gen_race(rng)], kind="abort-race")
+            yield dict(case=[0, rng.randint(0, 5), gen_race(rng)], kind="abort-race")
         elif r < 0.78:
-            yield dict(case=[0, rng.randint(0, 3), gen_overlap(rng)], kind="overlap")
+            yield dict(case=[0, rng.randint(0, 5), gen_overlap(rng)], kind="overlap")
         else:
-            yield dict(case=[1, gen_events(rng, multi=True)], kind="multi")
+            yield dict(case=[1, gen_events(rng, multi=True), rng.randint(0, 2)], kind="multi")
 
 
 # ------------------------------------------------------------------ independent bookkeeping
@@ -307,11 +311,13 @@ NAMES = {0: "dispatch", 1: "abort", 2: "complete", 3: "poll", 4: "clear", 5: "ru
 def describe(it):
     case = it["case"]
     if case[0] == 1:
-        evs, head = case[1], "ArcMultiAction"
+        evs = case[1]
+        head = ["ArcMultiAction", "ArcServerMultiAction (mock server fn)", "ServerMultiAction (mock server fn)"][case[2] if len(case) > 2 else 0]
     else:
         evs = case[2]
         head = ["ArcAction::dispatch", "Action::dispatch", "ArcAction::dispatch_local (unsync)",
-                "Action::dispatch_local (local)"][case[1] % 4]
+                "Action::dispatch_local (local)", "ArcServerAction::dispatch (mock server fn; negative = Err)",
+                "ServerAction::dispatch (mock server fn; negative = Err)"][case[1] % 6]
         if case[0] == 2:
             head += " [pre-fix model only]"
     names = dict(NAMES)
@@ -352,11 +358,11 @@ def valid_case(item):
     case = item["case"]
     try:
         if case[0] in (0, 2):
-            if len(case) != 3 or not isinstance(case[1], int) or not 0 <= case[1] <= 3:
+            if len(case) != 3 or not isinstance(case[1], int) or not 0 <= case[1] <= 5:
                 return False
             evs, multi = case[2], False
         elif case[0] == 1:
-            if len(case) != 2:
+            if len(case) not in (2, 3) or (len(case) == 3 and case[2] not in (0, 1, 2)):
                 return False
             evs, multi = case[1], True
         else:
